@@ -166,7 +166,7 @@ def gen_script(rng, quick):
 
 def size_targeting_script(rng, target):
     """get requests whose response size is steered towards `target` bytes by value lengths."""
-    return [["appset", i, 256] for i in range(4)] + [["fit_get", target]]
+    return [["appset", i, 256] for i in range(4)] + [["fit_get", target], ["get", [0]]]
 
 
 def run_script(ctx: Ctx, hc, hp, ops, mode, seed):
@@ -498,6 +498,40 @@ def to_model_line(obs, mode):
     return {"layer": "frame", "op": "tx", "keys": keys, "msgs": msgs}, impl
 
 
+def run_encrypt_sequences(ctx: Ctx, hc):
+    """HAPCrypto.encrypt called once per message for SEQUENCES of messages with boundary sizes (exact multiples of
+    1024 followed by further messages included): the reference controller (real ChaCha20-Poly1305) must open every
+    frame under counters 0,1,2,... and recover exactly the messages; frame payloads are 1024,...,1024,rest."""
+    rng = ctx.rng
+    st = ctx.stats
+    key = bytes(range(7, 39))
+    bsizes = [1, 2, 1023, 1024, 1025, 2047, 2048, 2049, 3072, 4096, 5000]
+    seqs = [[a, b] for a in bsizes for b in (1, 1024)] + [[1024, 1024, 1024, 1], [2048, 2048, 5], [3072, 1, 1024, 2]]
+    for _ in range(ctx.n(60, 1500)):
+        seqs.append([rng.choice(bsizes + [rng.randrange(1, 7000)]) for _ in range(rng.randrange(2, 6))])
+    for sizes in seqs:
+        c = hc.HAPCrypto(key)
+        msgs = [bytes((i * 13 + j) % 251 for j in range(n)) for i, n in enumerate(sizes)]
+        rep = {"kind": "encrypt-seq", "sizes": sizes}
+        try:
+            wire = b"".join(b"".join(bytes(x) for x in c.encrypt(m)) for m in msgs)
+        except Exception as ex:  # noqa: BLE001
+            ctx.fail("C05:encrypt-raised", f"encrypt raised {type(ex).__name__} for message sizes {sizes}", rep)
+            continue
+        frames, fail_end, consumed = ref.receive(ref.Real(ref.hkdf(key, ref.SALT, ref.A2C)), wire)
+        want_sizes = [s_ for n in sizes for s_ in [1024] * (n // 1024) + ([n % 1024] if n % 1024 else [])]
+        if fail_end is not None:
+            ctx.fail("C05:stream-not-wellformed", f"message sizes {sizes}: frame ending at {fail_end} does not authenticate under counter {len(frames)}", rep, size=len(sizes))
+        elif consumed != len(wire) or b"".join(p for _, p in frames) != b"".join(msgs):
+            ctx.fail("C05:stream-not-wellformed", f"message sizes {sizes}: the frames do not carry exactly the messages", rep, size=len(sizes))
+        elif [len(p) for _, p in frames] != want_sizes:
+            ctx.fail("C05:frame-size-out-of-range", f"message sizes {sizes}: frame payload sizes {[len(p) for _, p in frames][:12]} instead of {want_sizes[:12]}", rep)
+        st.case(["encrypt-seq", sizes], len(sizes) >= 2)
+        st.hit("op", "encrypt-seq")
+        if any(n % 1024 == 0 for n in sizes[:-1]):
+            st.hit("outcome", "exact-multiple-followed-by-message")
+
+
 def run_event_format(ctx: Ctx):
     """create_hap_event vs the model (HapModel/Event.lean) and vs the independent splitter."""
     import pyhap.hap_event as he
@@ -548,6 +582,7 @@ def run(ctx: Ctx):
     st = ctx.stats
     rng = ctx.rng
     run_event_format(ctx)
+    run_encrypt_sequences(ctx, hc)
     st.rule = (
         "scripts over one verified connection of a real HAPServerProtocol+AccessoryDriver on a virtual clock: reads, "
         "writes, subscriptions, application value changes (events), timer advances, delayed snapshot responses, second "
@@ -624,6 +659,14 @@ def _short(x):
 def search(ctx: Ctx):
     hc, hp = _reload()
     rng = ctx.rng
+    saved = ctx.tier
+    ctx.tier = "thorough"
+    try:
+        run_encrypt_sequences(ctx, hc)
+    finally:
+        ctx.tier = saved
+    if ctx.failures:
+        return
     for i in range(600):
         ops = gen_script(rng, False)
         mode = rng.choice(["mock", "real"])
@@ -646,6 +689,12 @@ def replay(ctx: Ctx, r):
         print("event message:", msg[:120], "...")
         print("verdict:", "property violated on this input" if bad else "holds on this input")
         return 1 if bad else 0
+    if r.get("kind") == "encrypt-seq":
+        run_encrypt_sequences(ctx, hc)
+        for f in ctx.failures:
+            print("FAILS:", f.signature, f.description)
+        print("verdict:", "property violated on this input" if ctx.failures else "holds on this input")
+        return 1 if ctx.failures else 0
     obs = run_script(ctx, hc, hp, r["ops"], r["mode"], r["seed"])
     msgs = judge(ctx, obs, r["ops"], r["mode"], r["seed"])
     print("writes:", [(k, len(d)) for k, d in obs["writes"]])
